@@ -22,7 +22,7 @@ PID = 'C12'
 
 TIERS = {
     'quick': dict(meshes4=200, pairs=24, triples=4, overlaps=8, meshes5=0, b3=60),
-    'thorough': dict(meshes4=None, pairs=12, triples=3, overlaps=4, meshes5=200, b3=400),
+    'thorough': dict(meshes4=None, pairs=10, triples=2, overlaps=4, meshes5=200, b3=400),
 }
 
 
@@ -52,13 +52,13 @@ def run(chk):
     salt = (chk.seed + 12) % 10007
     all4 = p['meshes4'] is None
     if all4:       # every mesh without parallel links, plus a seeded sample of those with one doubled pair of sites
-        ids4 = list(range(1, ru.BASE ** 6)) + [i for i in ru.stratified_meshes(4, 8000, rng) if i >= ru.BASE ** 6]
+        ids4 = list(range(1, ru.BASE ** 6)) + [i for i in ru.stratified_meshes(4, 4000, rng) if i >= ru.BASE ** 6]
     else:
         ids4 = [i for i in ru.stratified_meshes(4, p['meshes4'], rng) if i != 0]
     t0 = time.time()
     consts = dict(OneSrcDst=True, Thin=0, LinePer=0, TwinPer=0, PairPer=p['pairs'], TriplePer=p['triples'],
                   OverlapPer=p['overlaps'], Salt=salt)
-    parts = ru.slices(ids4, 4096)              # bounded memory
+    parts = ru.slices(ids4, 2048)              # bounded memory
     big = None
     if all4:                                   # the exhaustive 4-site run goes on beside the whole replay
         small, four = b1_runs(None, p, max(2, ru.nworkers() // 2))
@@ -77,9 +77,10 @@ def run(chk):
     t1 = time.time()
     grouped = lambda b: bool(b['groups'])                        # noqa: E731
     stats, traces, metas = ru.b2(chk, PID, jobs, keep=grouped)
-    for part in parts[1:]:
-        st, _, _ = ru.b2(chk, PID, ru.generate(chk, part, 'c12-gen4', NSites=4, **consts), keep=grouped)
-        stats = ru.merge_stats(stats, st)
+    acc = [stats]
+    ru.pipelined(parts[1:], lambda part: ru.generate(chk, part, 'c12-gen4', workers=ru.share(2), NSites=4, **consts),
+                 lambda jb: acc.append(ru.merge_stats(acc.pop(), ru.b2(chk, PID, jb, keep=grouped)[0])))
+    stats = acc[0]
     timing['b2_replay_and_judgement'] = round(time.time() - t1, 1)
     chk.cov['b2_4sites'] = stats
     if p['meshes5']:
